@@ -140,6 +140,12 @@ def run(ctx):
             with vlib.Lock():
                 vlib.regen(ctx.pid)   # another check may have regenerated Gen from a different tree meanwhile
                 model_ok, _ = vlib.make(["Model/C14Check.vo"])
+        elif kind == "translator":
+            # the source no longer has a shape the translator recognises: search for a failing input with the
+            # model and the chain-solution Spec as last generated (the reaction table is data and is still there)
+            with vlib.Lock():
+                model_ok, _ = vlib.make(["Model/C14Check.vo"])
+            ctx.note("translation failed; the failing-input search uses the last successfully generated Gen files")
     if model_ok:
         verdicts = run_model(cases)
         keys = vlib.run_diag("C14_keys", PRE, CT, [], "(fun _ : list c14case => model_row_keys)")
